@@ -127,7 +127,7 @@ CHECKS = {
     "C13": dict(
         title="Committee-run deployment converges, deploys exactly once, is idempotent",
         quick=dict(groups=[E("funds-exhaustive", "^TestC13FundsExhaustive$"), E("window-enumerated", "^TestC13WindowEnumerated$"), G("helpers-random", "^TestC13HelpersRandom$", 3000, 2),
-                           E("regressions", "^TestC13Regressions$", 5, timeout="20m"),
+                           E("regressions", "^TestC13Regressions$", 5, timeout="20m"), E("crash-points", "^TestC13CrashPoints$", 10, timeout="20m"),
                            G("deploy-n1", "^TestC13Deploy$", 2, 1, env=dict(VERIF_C13_N="1"), shrinktime="5s", timeout="20m"),
                            G("deploy-n2", "^TestC13Deploy$", 2, 2, env=dict(VERIF_C13_N="2"), shrinktime="5s", timeout="20m"),
                            G("deploy-n3", "^TestC13Deploy$", 1, 3, env=dict(VERIF_C13_N="3"), shrinktime="5s", timeout="20m"),
@@ -137,7 +137,8 @@ CHECKS = {
                            G("deploy-multi-cancel", "^TestC13Deploy$", 1, 3, env=dict(VERIF_C13_N="2,3,4", VERIF_C13_SHAPE="multi-cancel"), shrinktime="5s", timeout="20m"),
                            G("deploy-late", "^TestC13Deploy$", 1, 2, env=dict(VERIF_C13_N="2,3,4", VERIF_C13_SHAPE="late"), shrinktime="5s", timeout="20m")]),
         thorough=dict(groups=[E("funds-exhaustive", "^TestC13FundsExhaustive$"), E("window-enumerated", "^TestC13WindowEnumerated$"), G("helpers-random", "^TestC13HelpersRandom$", 100000, 4),
-                              E("regressions", "^TestC13Regressions$", 5, timeout="20m"),
+                              E("regressions", "^TestC13Regressions$", 5, timeout="20m"), E("crash-points", "^TestC13CrashPoints$", 16, env=dict(VERIF_C13_CRASH_MAX1=60, VERIF_C13_CRASH_MAX2=160), timeout="60m"),
+                              G("deploy-all-restart", "^TestC13Deploy$", 6, 4, env=dict(VERIF_C13_N="2,3,4", VERIF_C13_SHAPE="all-restart"), shrinktime="60s", timeout="120m"),
                               G("deploy-small", "^TestC13Deploy$", 20, 6, env=dict(VERIF_C13_N="1,2,3,4"), shrinktime="60s", timeout="120m"),
                               G("deploy-large", "^TestC13Deploy$", 8, 6, env=dict(VERIF_C13_N="5,6,7"), shrinktime="60s", timeout="120m"),
                               G("deploy-churn", "^TestC13Deploy$", 6, 4, env=dict(VERIF_C13_N="4,5,6,7", VERIF_C13_SHAPE="churn"), shrinktime="60s", timeout="120m"),
